@@ -266,7 +266,18 @@ def colour_rule(ck, facts):
         xor = any(st[0] == "=" and st[2][0] == "bin" and st[2][1] == "BitXor" for c in clos for b in c.blocks for st in b["s"])
         add = any(st[0] == "=" and st[2][0] == "bin" and st[2][1] in ("Add", "AddWithOverflow", "AddUnchecked") and "u64" in c.locals[st[1][0]]["ty"]
                   for c in clos for b in c.blocks for st in b["s"]) or any(re.search(r"num::<impl u64>::wrapping_add$", n) for n in names)
-        bad = [n for n in names if re.search(r"::dedup\w*$|::sort\w*$|iter::Iterator::(fold|enumerate|rev|skip|take|last|position)$|Vec::<T, A>::push$", n)]
+        bad = [n for n in names if re.search(r"::dedup\w*$|::sort\w*$|iter::Iterator::(enumerate|rev|skip|take|last|position)$|Vec::<T, A>::push$", n)]
+        # a fold is order-independent iff its step is a commutative, associative combination of the accumulator with the item's hash
+        for c in clos:
+            for _, t in c.calls():
+                if call_name_matches(t, r"iter::Iterator::fold$") and len(t["args"]) >= 3:
+                    o = c.origin(t["args"][2])
+                    step = facts.fns.get(o[1]["def"]) if o[0] == "agg" and o[1].get("k") == "closure" else None
+                    ok_step = step is not None and (
+                        any(re.search(r"num::<impl u64>::wrapping_add$", (tt["f"].get("name") or "")) for _, tt in step.calls())
+                        or any(st[0] == "=" and st[2][0] == "bin" and st[2][1] in ("Add", "AddWithOverflow", "AddUnchecked", "BitXor") for b in step.blocks for st in b["s"]))
+                    if not ok_step:
+                        bad.append("iter::Iterator::fold")
         hq = [n for n in names if n.endswith("hash_quad_with") or n.endswith("hash_triple_with")]
         if bad:
             ck.bad("R7.4", "R7.4@%s::make_map#combination" % mod, "the colour of a node goes through an order-dependent step (%s) over its "
